@@ -659,7 +659,7 @@ def c16_write_order : List String := ["Seal", "incrNonce", "Write"]
 def c18_finalizeCommit_order : List String := ["ValidateBlock", "SaveBlock", "ApplyBlock", "pruneBlocks"]
 
 /-- has state/execution.go updateState -/
-def c18_params_change_height_unconditional : Bool := false
+def c18_params_change_height_unconditional : Bool := true
 
 /-- order consensus/state.go State.pruneBlocks -/
 def c18_pruneBlocks_glue_order : List String := ["PruneBlocks", "PruneStates"]
